@@ -25,49 +25,106 @@ func isIOWriter(t types.Type) bool {
 	return ok && n.Obj().Pkg() != nil && n.Obj().Pkg().Path() == "io" && n.Obj().Name() == "Writer"
 }
 
-// varintWriterSummary recognises a module helper of the shape
-//
-//	n := binary.PutVarint(buf[:], int64(v)); _, err := w.Write(buf[:n]); return err
-//
-// and returns the indices of its writer and integer parameters.
-func varintWriterSummary(fn *ssa.Function) (wIdx, vIdx int, ok bool) {
-	wIdx, vIdx = -1, -1
-	if fn == nil || len(fn.Blocks) != 1 {
-		return
+// writerSummary describes a module helper that performs exactly one write on
+// the io.Writer it is given, of one of its own parameters, on every path, and
+// cannot report success when that write failed.
+type writerSummary struct {
+	wIdx, argIdx int
+	kind         string // bytes | varint
+}
+
+var writerSummaries = map[*ssa.Function]*writerSummary{}
+var writerSummaryBusy = map[*ssa.Function]bool{}
+
+func writerSummaryOf(P *Program, fn *ssa.Function) *writerSummary {
+	if s, ok := writerSummaries[fn]; ok {
+		return s
 	}
-	var put, wr *ssa.Call
-	n := 0
-	for _, cs := range callsIn(fn) {
-		n++
-		if cs.Static != nil && qualName(cs.Static) == "encoding/binary.PutVarint" {
-			put = cs.Value()
-		}
-		if cs.Iface != nil && cs.Iface.Name() == "Write" && isIOWriter(cs.Common.Value.Type()) {
-			wr = cs.Value()
-		}
+	if writerSummaryBusy[fn] || fn == nil || fn.Blocks == nil {
+		return nil
 	}
-	if put == nil || wr == nil || n != 2 {
-		return
-	}
+	writerSummaryBusy[fn] = true
+	defer delete(writerSummaryBusy, fn)
+	var sum *writerSummary
+	defer func() { writerSummaries[fn] = sum }()
+	wIdx := -1
 	for i, p := range fn.Params {
-		if p == wr.Call.Value {
+		if isIOWriter(p.Type()) {
+			if wIdx >= 0 {
+				return nil
+			}
 			wIdx = i
 		}
-		if stripConv(put.Call.Args[1]) == ssa.Value(p) {
-			vIdx = i
+	}
+	if wIdx < 0 || errorResultIndex(fn.Signature) < 0 {
+		return nil
+	}
+	evs, unknown := writeEventsOn(P, fn, fn.Params[wIdx])
+	if len(evs) != 1 || len(unknown) != 0 {
+		return nil
+	}
+	e := evs[0]
+	for _, l := range loopsOf(fn) {
+		if l.Blocks[e.Instr.Block()] {
+			return nil
 		}
 	}
-	// written slice is buf[:n] of the same array PutVarint filled from index 0
-	sl, isS := wr.Call.Args[0].(*ssa.Slice)
-	psl, isP := put.Call.Args[0].(*ssa.Slice)
-	if !isS || !isP || sl.Low != nil || sl.High != ssa.Value(put) || psl.Low != nil || psl.High != nil || accessPath(sl.X) != accessPath(psl.X) {
-		return -1, -1, false
+	// every return: the write has happened, and success is reported only if it succeeded
+	for _, r := range returnsOf(fn) {
+		if !dominatesInstr(e.Instr, r) {
+			return nil
+		}
+		ev := errOperand(r)
+		if ev == nil {
+			return nil
+		}
+		if ev == e.Err || isFreshError(ev) {
+			continue
+		}
+		if _, isNil := knownNonNil(r.Block(), e.Err); isNil {
+			continue
+		}
+		if nn, _ := knownNonNil(r.Block(), ev); nn {
+			continue
+		}
+		return nil
 	}
-	rs := returnsOf(fn)
-	if len(rs) != 1 || errOperand(rs[0]) != errValueOfCall(wr) {
-		return -1, -1, false
+	paramIdx := func(v ssa.Value) int {
+		for i, p := range fn.Params {
+			if ssa.Value(p) == stripConv(v) {
+				return i
+			}
+		}
+		return -1
 	}
-	return wIdx, vIdx, wIdx >= 0 && vIdx >= 0
+	switch e.Kind {
+	case "varint":
+		if i := paramIdx(e.Arg); i >= 0 {
+			sum = &writerSummary{wIdx, i, "varint"}
+		}
+	case "bytes":
+		if i := paramIdx(e.Arg); i >= 0 {
+			sum = &writerSummary{wIdx, i, "bytes"}
+			break
+		}
+		// buf[:n] where n := binary.PutVarint(buf[:], int64(v)): the varint of v
+		sl, isS := e.Arg.(*ssa.Slice)
+		if !isS || sl.Low != nil || sl.High == nil {
+			break
+		}
+		put, isC := sl.High.(*ssa.Call)
+		if !isC || put.Call.StaticCallee() == nil || qualName(put.Call.StaticCallee()) != "encoding/binary.PutVarint" {
+			break
+		}
+		psl, isP := put.Call.Args[0].(*ssa.Slice)
+		if !isP || psl.Low != nil || psl.High != nil || accessPath(sl.X) != accessPath(psl.X) || !dominatesInstr(put, e.Instr) {
+			break
+		}
+		if i := paramIdx(put.Call.Args[1]); i >= 0 {
+			sum = &writerSummary{wIdx, i, "varint"}
+		}
+	}
+	return sum
 }
 
 func writeEventsOn(P *Program, fn *ssa.Function, w ssa.Value) (evs []writeEvent, unknown []ssa.Instruction) {
@@ -91,8 +148,8 @@ func writeEventsOn(P *Program, fn *ssa.Function, w ssa.Value) (evs []writeEvent,
 		}
 		callee := cc.StaticCallee()
 		if callee != nil && P.isModuleFunc(callee) && call != nil {
-			if wi, vi, ok := varintWriterSummary(callee); ok && wi < len(cc.Args) && cc.Args[wi] == w {
-				evs = append(evs, writeEvent{Instr: ci, Kind: "varint", Arg: cc.Args[vi], Err: errValueOfCall(call)})
+			if sum := writerSummaryOf(P, callee); sum != nil && sum.wIdx < len(cc.Args) && cc.Args[sum.wIdx] == w {
+				evs = append(evs, writeEvent{Instr: ci, Kind: sum.kind, Arg: cc.Args[sum.argIdx], Err: errValueOfCall(call)})
 				continue
 			}
 		}
@@ -642,13 +699,31 @@ func ruleWBAppend(c *Ctx) {
 	if !c.Anchor(wbT != nil, "avro.WriteBuf") {
 		return
 	}
+	// the buffer is WriteBuf's only []byte field, whatever it is called
+	bufField := ""
+	if st, ok := wbT.Underlying().(*types.Struct); ok {
+		for i := 0; i < st.NumFields(); i++ {
+			if sl, ok := st.Field(i).Type().Underlying().(*types.Slice); ok {
+				if b, ok := sl.Elem().Underlying().(*types.Basic); ok && b.Kind() == types.Byte {
+					if bufField != "" {
+						bufField = "?"
+					} else {
+						bufField = st.Field(i).Name()
+					}
+				}
+			}
+		}
+	}
+	if !c.Anchor(bufField != "" && bufField != "?", "WriteBuf's single []byte field") {
+		return
+	}
 	isBufAddr := func(v ssa.Value) bool {
 		fa, ok := v.(*ssa.FieldAddr)
 		if !ok {
 			return false
 		}
 		pt, ok := fa.X.Type().Underlying().(*types.Pointer)
-		return ok && types.Identical(pt.Elem(), wbT) && fieldName(fa.X.Type(), fa.Field) == "buf"
+		return ok && types.Identical(pt.Elem(), wbT) && fieldName(fa.X.Type(), fa.Field) == bufField
 	}
 	isBufLoad := func(v ssa.Value) bool {
 		u, ok := v.(*ssa.UnOp)
